@@ -50,6 +50,12 @@ func (g *wgen) write(t int, n int) Step {
 		if g.r.Chance(0.3) {
 			tx.Fail = append(tx.Fail, fsmsim.OpSpec{T: "del", K: g.key(), E: fsmsim.KWild})
 		}
+		if g.r.Chance(0.5) {
+			// reads inside a write transaction: they observe the transaction's own earlier writes and every
+			// write with a lower revision, also one applied in the same apply batch
+			tx.Succ = append(tx.Succ, fsmsim.OpSpec{T: "range", K: tx.Succ[len(tx.Succ)-1].K, E: fsmsim.KNil})
+			tx.Fail = append(tx.Fail, fsmsim.OpSpec{T: "range", K: fsmsim.KWild, E: fsmsim.KWild})
+		}
 		return Step{Op: "txn", N: n, T: t, Txn: tx}
 	}
 }
